@@ -377,7 +377,8 @@ func TestC15Inbound(t *testing.T) {
 		rapid.SyncTest(rt, func(rt *rapid.T) {
 			e := newEnv(rt)
 			defer e.Teardown()
-			lc, err := e.open(connSpec{Client: mode.Client, Mode: mode.Mode, Ext: mode.Ext})
+			// (servers: the hijacked bufio.Reader may be smaller than a control frame's payload)
+			lc, err := e.open(connSpec{Client: mode.Client, Mode: mode.Mode, Ext: mode.Ext, ReaderSize: []int{0, 0, 16, 64, 127}[caseNo%5]})
 			if err != nil {
 				fail = "handshake: " + err.Error()
 				return
